@@ -3,7 +3,7 @@ PROP = dict(
     harness_mods=["Harness/C15.v"],
     runs=[dict(cmd="c15", quick=1, thorough=1), dict(cmd="c15r", quick=120, thorough=4000)],
     trusted_base=[
-        "hand-written Gallina model coq/Auth/Witness.v of runtime/witness.go (CheckHashedWitness, checkScope, getContractGroups, scopeContext) and transaction/witness_condition.go (Match), tied by exhaustive correspondence over a 62-context universe",
+        "hand-written Gallina model coq/Auth/Witness.v of runtime/witness.go (CheckHashedWitness, checkScope, getContractGroups, scopeContext) and transaction/witness_condition.go (Match), tied by exhaustive correspondence over a 98-context universe",
         "the harness builds VM invocation stacks with vm.LoadScriptWithHash/LoadNEFMethod and a stub contract table to realise each context for the real CheckHashedWitness; the stub MatchContext used for the exported Match",
     ],
     assumptions=[
@@ -14,6 +14,6 @@ PROP = dict(
     modelled="witness.go and the Match methods are modelled and proved equal to the declarative predicate; tied to Go by differential evaluation (exhaustive over the universe for trees of height <= 2 and their unary wrappers and for all scope-bit combinations; random beyond; a live-chain sample through System.Runtime.CheckWitness)",
 )
 META = dict(
-    text="Proved in Coq for every signer list, call context and condition tree of any nesting: the model of CheckHashedWitness/checkScope/Match grants exactly where the declarative predicate of the property holds (caller is the account, or the first signer entry for the account allows the context by Global / CalledByEntry / listed contract / listed group / first matching rule = Allow); it faults only for an empty signer list or a group lookup without ReadStates; an account without signer entry passes only as the caller; Not flips; the first matching rule and the first signer entry decide. Tied to the Go code by exhaustive differential evaluation of the real CheckHashedWitness and Match over a 3-contract/2-group universe (62 call contexts) and by System.Runtime.CheckWitness inside deployed contracts on a neotest chain (entry, called by entry, deeper, dynamic script, native caller).",
+    text="Proved in Coq for every signer list, call context and condition tree of any nesting: the model of CheckHashedWitness/checkScope/Match grants exactly where the declarative predicate of the property holds (caller is the account, or the first signer entry for the account allows the context by Global / CalledByEntry / listed contract / listed group / first matching rule = Allow); it faults only for an empty signer list or a group lookup without ReadStates; an account without signer entry passes only as the caller; Not flips; the first matching rule and the first signer entry decide. Tied to the Go code by exhaustive differential evaluation of the real CheckHashedWitness and Match over a 4-contract/2-group universe (98 call contexts) and by System.Runtime.CheckWitness inside deployed contracts on a neotest chain (entry, called by entry, deeper, dynamic script, native caller).",
     note="Trusted: Coq kernel/vm_compute, the Go harness (context construction, stub contract table), orchestration. The model is hand-written and tied by correspondence, not by translation; the entry relation and script hashes are produced by the VM and only exercised, not modelled.",
 )
